@@ -185,6 +185,8 @@ pub fn dispatch(line: &str) -> String {
     let out = match ty.as_str() {
         _ if f0.starts_with("PathTpc::") => <PathTpcTag as FileEntry>::call(&req),
         "W_UpdateRes" => <StrapTag as FileEntry>::call(&req),
+        "SetSpeedTrainSim" => <SetSpeedTrainSimTag as FileEntry>::call(&req),
+        "TrainState" => <TrainStateTag as FileEntry>::call(&req),
         "<free>" => run_free(&req),
         "Vec<SpeedLimitPoint>" => <SpeedPointTag as FileEntry>::call(&req),
         "PowerDistributionControlType" => run::<PowerDistributionControlType>(&req, call_pdct),
